@@ -254,8 +254,141 @@ func (p *c15) relative(rec *core.Recorder, r *core.Rand) {
 	rec.Count("calls-checked", 3)
 }
 
+// c15Flaky has every name of its inner loader but fails to read while broken is set.
+type c15Flaky struct {
+	inner  *c15TsMem
+	broken bool
+}
+
+func (l *c15Flaky) Load(name string) (string, error) {
+	if l.broken && l.inner.Exists(name) {
+		return "", fmt.Errorf("verif: i/o error reading %s: %w", name, errSentinel)
+	}
+	return l.inner.Load(name)
+}
+func (l *c15Flaky) Exists(name string) bool { return l.inner.Exists(name) }
+
+// chained: "the first that has the name wins" holds inside a ChainLoader too. Its first member has the name but cannot read
+// it for a while; a later member (of the chain, or a later loader of the engine) has a template of the same name. The
+// lookup fails with the member's error - nothing is served, nothing is cached - and once the member works again its
+// template is what the name serves.
+func (p *c15) chained(rec *core.Recorder, r *core.Rand) {
+	first := &c15Flaky{inner: &c15TsMem{c15Mem{m: map[string]c15Entry{"aa": {"⟦aa#1@FIRST⟧", 10}}, loads: map[string]int{}}}, broken: true}
+	second := &c15TsMem{c15Mem{m: map[string]c15Entry{"aa": {"⟦aa#2@SECOND⟧", 10}, "bb": {"⟦bb#3@SECOND⟧", 10}}, loads: map[string]int{}}}
+	e := twig.New()
+	shape := r.Intn(3)
+	switch shape {
+	case 0:
+		e.RegisterLoader(twig.NewChainLoader([]twig.Loader{first, second}))
+	case 1:
+		e.RegisterLoader(twig.NewChainLoader([]twig.Loader{twig.NewArrayLoader(map[string]string{"zz": "z"}), first, second}))
+	default:
+		e.RegisterLoader(twig.NewChainLoader([]twig.Loader{first}))
+		e.RegisterLoader(second)
+	}
+	auto := r.Bool()
+	e.SetAutoReload(auto)
+	trace := fmt.Sprintf("shape %d (0: chain[first, second]; 1: chain[other, first, second]; 2: chain[first] then second); autoReload=%v", shape, auto)
+	rec.Eval("chained", trace, true)
+	rec.Count("chain-loader-histories", 1)
+	cs := map[string]any{"trace": trace}
+	out, err := e.Render("aa", nil)
+	if err == nil || errors.Is(err, twig.ErrTemplateNotFound) || !errors.Is(err, errSentinel) {
+		rec.Violate("cache-model", "chain-member-failure-covered-up", fmt.Sprintf("the first loader that has 'aa' failed to read it; Render gave %q err=%v (want the loader's error, not a later loader's template and not 'not found')", out, err), cs, "")
+		return
+	}
+	if names := e.VerifCachedNames(); len(names) != 0 {
+		rec.Violate("cache-model", "chain-member-failure-cached", fmt.Sprintf("after the failed lookup the cache holds %v", names), cs, "")
+		return
+	}
+	if out, err := e.Render("bb", nil); err != nil || out != "⟦bb#3@SECOND⟧" {
+		rec.Violate("cache-model", "chain-other-name", fmt.Sprintf("a name only the later loader has gave %q err=%v", out, err), cs, "")
+		return
+	}
+	first.broken = false
+	if out, err := e.Render("aa", nil); err != nil || out != "⟦aa#1@FIRST⟧" {
+		rec.Violate("cache-model", "chain-first-member-wins", fmt.Sprintf("with the first member working again 'aa' serves %q (err=%v), want the first member's template", out, err), cs, "")
+		return
+	}
+	rec.Count("calls-checked", 3)
+}
+
+// searchPaths: one file-system loader over two directories. The first directory that has a template wins at every lookup,
+// also when the template appeared there after the loader had already served the name from the second directory, and the
+// loader's suffix is the one set at the time of the lookup. What a new loader over the same directories serves is the model.
+func (p *c15) searchPaths(rec *core.Recorder, r *core.Rand) {
+	tmp, err := os.MkdirTemp("", "verif-c15-")
+	if err != nil {
+		rec.HarnessFault("mkdtemp: %v", err)
+		return
+	}
+	defer os.RemoveAll(tmp)
+	dirA, dirB := filepath.Join(tmp, "a"), filepath.Join(tmp, "b")
+	os.MkdirAll(dirA, 0o755)
+	os.MkdirAll(dirB, 0o755)
+	write := func(path, src string, mtime int64) {
+		os.WriteFile(path, []byte(src), 0o644)
+		os.Chtimes(path, time.Unix(mtime, 0), time.Unix(mtime, 0))
+	}
+	l := twig.NewFileSystemLoader([]string{dirA, dirB})
+	e := twig.New()
+	e.RegisterLoader(l)
+	mode := r.Intn(3) // 0: cache off; 1: auto-reload on; 2: cache off, suffix change
+	if mode == 1 {
+		e.SetAutoReload(true)
+	} else {
+		e.SetCache(false)
+	}
+	trace := fmt.Sprintf("FileSystemLoader([a, b]); mode %d (0 cache off, 1 auto-reload, 2 cache off + SetSuffix)", mode)
+	rec.Eval("search-paths", trace, true)
+	rec.Count("search-path-histories", 1)
+	cs := map[string]any{"trace": trace}
+	fresh := func(suffix string) string {
+		fl := twig.NewFileSystemLoader([]string{dirA, dirB})
+		if suffix != "" {
+			fl.SetSuffix(suffix)
+		}
+		fe := twig.New()
+		fe.RegisterLoader(fl)
+		out, err := fe.Render("aa", nil)
+		if err != nil {
+			return "ERR"
+		}
+		return out
+	}
+	write(filepath.Join(dirB, "aa.twig"), "⟦aa#1@B⟧", 1_700_000_010)
+	if out, err := e.Render("aa", nil); err != nil || out != "⟦aa#1@B⟧" {
+		rec.Violate("cache-model", "search-paths-first", fmt.Sprintf("first render gave %q err=%v", out, err), cs, "")
+		return
+	}
+	if mode == 2 {
+		write(filepath.Join(dirB, "aa.html"), "⟦aa#2@HTML⟧", 1_700_000_020)
+		l.SetSuffix(".html")
+		want := fresh(".html")
+		if out, err := e.Render("aa", nil); err != nil || out != want {
+			rec.Violate("cache-model", "suffix-change-ignored", fmt.Sprintf("after SetSuffix(\".html\") with the cache off the loader serves %q (err=%v); a new loader with that suffix serves %q", out, err, want), cs, "")
+		}
+		return
+	}
+	write(filepath.Join(dirA, "aa.twig"), "⟦aa#3@A⟧", 1_700_000_030)
+	want := fresh("")
+	if out, err := e.Render("aa", nil); err != nil || out != want {
+		rec.Violate("cache-model", "earlier-search-path-ignored", fmt.Sprintf("'aa' appeared in the first search path (newer) after it had been served from the second; the next call serves %q (err=%v), a new loader over the same directories serves %q", out, err, want), cs, "")
+		return
+	}
+	rec.Count("calls-checked", 2)
+}
+
 func (p *c15) Run(rec *core.Recorder, seed uint64, idx int, tier string) {
 	twig.SetDebugWriter(io.Discard)
+	if idx%25 == 21 {
+		p.searchPaths(rec, core.NewRand("C15s", seed, idx))
+		return
+	}
+	if idx%25 == 19 {
+		p.chained(rec, core.NewRand("C15c", seed, idx))
+		return
+	}
 	if idx%25 == 7 {
 		p.meanwhile(rec, core.NewRand("C15m", seed, idx))
 		return
